@@ -380,6 +380,20 @@ class Interp:
                 v.fresh = False          # module-level containers are pre-existing global heap
                 v.label = f"{module.name}.{name}"
                 v.mutated_global = name in mutated_module_globals(module)
+            elif isinstance(v, Obj):
+                # a module-level INSTANCE is process-wide state shared by every call: it (and what its constructor
+                # allocated) exists before any function under contract runs
+                def _pre(x, d=3):
+                    if isinstance(x, Obj):
+                        x.fresh = False
+                        for y in x.fields.values():
+                            if d:
+                                _pre(y, d - 1)
+                    elif isinstance(x, (PyList, PyDict, PySet)):
+                        x.fresh = False
+                _pre(v)
+                v.label = f"{module.name}.{name}"
+                v.module_level_instance = True
         elif name in module.imports:
             imp = module.imports[name]
             if imp[0] == "module":
